@@ -180,22 +180,26 @@ PROPS["C11"] = {
 }
 
 PROPS["C19"] = {
-    "files": ["libs/pubsub/pubsub.go", "libs/pubsub/subscription.go", "state/txindex/kv/kv.go", "state/txindex/indexer_service.go"],
+    "files": ["libs/pubsub/pubsub.go", "libs/pubsub/subscription.go", "state/txindex/kv/kv.go", "state/txindex/indexer_service.go", "state/indexer/block/kv/kv.go"],
     "groups": [
         {"dir": "libs/pubsub",
          "quick": ["VP_C19_Pubsub_n2_k2", "VP_C19_Pubsub_n2_k3", "VP_C19_Pubsub_n2_k3_shared", "VP_C19_Pubsub_n2_k4_shared"],
          "thorough": ["VP_C19_Pubsub_n3_k2", "VP_C19_Pubsub_n3_k3_shared"]},
+        {"dir": "state/indexer/block/kv",
+         "quick": ["VP_C19_BlockSearch"],
+         "thorough": []},
         {"dir": "state/txindex/kv",
          "quick": ["VP_C19_Search_n3", "VP_C19_IndexerService"],
          "thorough": ["VP_C19_Search_n4"]},
     ],
     "bounds": {
         "delivery (H1)": "real pubsub.Server (its loop goroutine scheduled by the engine), n = 2 (thorough 3) subscribers with own or shared queries, buffered with capacity 1, each fast (drains after every publication) or slow (never reads); k = 2..3 (thorough 4) operations from {publish, unsubscribe}; each query's verdict on each publication symbolic in {no match, match, error}; every map-iteration order of the subscription tables",
+        "block search (H2b)": "real block indexer (state/indexer/block/kv) on a MemDB: three blocks with a begin-block attribute in {A,B} and an end-block attribute from {2,9,10,100}; five query shapes combining a (possibly empty) range, an equality and a height bound, real parser; reference computed from the values",
         "indexer service (H3)": "real txindex.IndexerService on a real EventBus and kv.TxIndex: two blocks of 0..2 transactions published as the node does; indexing of a block's own events fails or not (arbitrary per block); every committed transaction must be retrievable under its height and position",
         "transaction search (H2)": "real kv.TxIndex on a MemDB: 3 (thorough 4) transactions at heights 1..2 carrying account.number drawn from {1,2,9,10,15,100} (different digit counts), indexed by the real Index; one query of 5 shapes (closed range, upper bound only, open range, equality, height AND upper bound) with bounds from {2,10,15,50}, parsed by the real query parser; the reference answer is computed from the values; concrete values, every combination enumerated by the engine",
     },
     "stubs": ["Query = harness object with symbolic verdicts (the query language is not executed) in the pubsub entries; real parser in the search entries", "goroutines interleaved at channel operations; map iteration order is a decision"],
-    "outside": ["query-language matching against events (Query.Matches: reflect / regexp / float and time parsing over strings) and string, time and float operands in searches", "the block indexer (state/indexer/block/kv)", "unbuffered subscriptions"],
+    "outside": ["query-language matching against events (Query.Matches: reflect / regexp / float and time parsing over strings) and string, time and float operands in searches", "unbuffered subscriptions"],
     "timeout_quick": 300, "timeout_thorough": 3000,
 }
 
